@@ -1,3 +1,494 @@
 package main
 
-func cmdCheck(args []string) {}
+// `govc check`: the per-property check registered in MANIFEST.json.
+
+import (
+	"encoding/json"
+	"flag"
+	"fmt"
+	"os"
+	"os/exec"
+	"path/filepath"
+	"regexp"
+	"sort"
+	"strconv"
+	"strings"
+	"time"
+)
+
+type KnownFinding struct {
+	Property     string `json:"property"`
+	Obligation   string `json:"obligation"`
+	WitnessClass string `json:"witness_class"`
+	What         string `json:"what"`
+}
+
+type FixedFinding struct {
+	Property string `json:"property"`
+	Commit   string `json:"commit"`
+	What     string `json:"what"`
+}
+
+type KnownFile struct {
+	Findings []KnownFinding `json:"findings"`
+	Fixed    []FixedFinding `json:"fixed"`
+}
+
+var reProp = regexp.MustCompile(`^(C\d{2,3}|L\d+)[.]`)
+
+// oblCounts: does the obligation count for property prop?
+func oblCounts(o *Obligation, prop string) bool {
+	if o.Label == "" {
+		return true
+	}
+	m := reProp.FindStringSubmatch(o.Label)
+	if m == nil || strings.HasPrefix(m[1], "L") {
+		return true
+	}
+	return m[1] == prop
+}
+
+func baseName(n string) string {
+	if i := strings.LastIndex(n, "#"); i >= 0 {
+		if _, err := strconv.Atoi(n[i+1:]); err == nil {
+			return n[:i]
+		}
+	}
+	return n
+}
+
+type checkOpts struct {
+	prop, tier, repo, verif string
+	seed                    int
+	quiet                   bool
+}
+
+type checkResult struct {
+	violations []string
+	known      []string
+	broken     []string
+	evidence   map[string]interface{}
+}
+
+func cmdCheck(args []string) {
+	fs := flag.NewFlagSet("check", flag.ExitOnError)
+	prop := fs.String("prop", "", "property id")
+	tier := fs.String("tier", "quick", "quick|thorough")
+	repo := fs.String("repo", "/repo", "")
+	verif := fs.String("verif", "/verif", "")
+	noEvidence := fs.Bool("no-evidence", false, "do not write the evidence file (self-test runs)")
+	fs.Parse(args)
+	if *prop == "" {
+		fmt.Fprintln(os.Stderr, "check: -prop required")
+		os.Exit(2)
+	}
+	seed, _ := strconv.Atoi(os.Getenv("VERIF_SEED"))
+	if t := os.Getenv("VERIF_TIER"); t != "" && *tier == "" {
+		*tier = t
+	}
+	t0 := time.Now()
+	res := runCheck(checkOpts{prop: *prop, tier: *tier, repo: *repo, verif: *verif, seed: seed})
+	wall := time.Since(t0).Seconds()
+	if res.evidence != nil && !*noEvidence {
+		res.evidence["wall_s"] = wall
+		res.evidence["violations"] = len(res.violations)
+		_ = os.MkdirAll(filepath.Join(*verif, "evidence"), 0o755)
+		data, _ := json.MarshalIndent(res.evidence, "", " ")
+		_ = os.WriteFile(filepath.Join(*verif, "evidence", *prop+".json"), append(data, '\n'), 0o644)
+	}
+	for _, k := range res.known {
+		fmt.Println(k)
+	}
+	for _, b := range res.broken {
+		fmt.Println("BROKEN-CHECK:", b)
+	}
+	for _, v := range res.violations {
+		fmt.Println(v)
+	}
+	fmt.Printf("check %s %s: %.1fs\n", *prop, *tier, wall)
+	if len(res.broken) > 0 {
+		os.Exit(2)
+	}
+	if len(res.violations) > 0 {
+		os.Exit(1)
+	}
+}
+
+func runCheck(o checkOpts) *checkResult {
+	res := &checkResult{}
+	if err := loadSpecs(filepath.Join(o.verif, "spec")); err != nil {
+		res.broken = append(res.broken, err.Error())
+		return res
+	}
+	w, err := loadWorld(o.repo, defaultSpecs(o.repo, o.verif))
+	if err != nil {
+		res.broken = append(res.broken, "load: "+err.Error())
+		return res
+	}
+	var known KnownFile
+	if data, err := os.ReadFile(filepath.Join(o.verif, "known_findings.json")); err == nil {
+		if err := json.Unmarshal(data, &known); err != nil {
+			res.broken = append(res.broken, "known_findings.json: "+err.Error())
+			return res
+		}
+	}
+	dir, _ := os.MkdirTemp("", "govc-"+o.prop+"-")
+	defer cleanupDir(dir)
+	timeout, retry, all := 10, 40, false
+	if o.tier == "thorough" {
+		timeout, retry, all = 60, 120, true
+	}
+	cfg := dischargeCfg{dir: dir, timeoutS: timeout, retryS: retry, all: all, idxSortOf: idxSortOf}
+
+	var funcs []string
+	for _, k := range w.db.Order {
+		fc := w.db.Funcs[k]
+		if fc.Extern || fc.Trusted || strings.HasPrefix(k, "field:") || !fc.hasTag(o.prop) {
+			continue
+		}
+		funcs = append(funcs, k)
+	}
+	var allObls, reachObls []*Obligation
+	var warns, errs []string
+	externs, trusted, relies, unmodelled, inlined := map[string]bool{}, map[string]bool{}, map[string]bool{}, map[string]bool{}, map[string]bool{}
+	type fsum struct {
+		Func  string `json:"func"`
+		Mode  string `json:"mode"`
+		Obls  int    `json:"obligations"`
+		Count int    `json:"counted_for_property"`
+	}
+	var fsums []fsum
+	genT0 := time.Now()
+	for _, k := range funcs {
+		fc := w.db.Funcs[k]
+		for _, m := range modesOf(fc) {
+			r := w.verifyFunction(k, fc, m)
+			if r.Err != nil {
+				errs = append(errs, fmt.Sprintf("%s [%s]: %v", k, m, firstLine(r.Err.Error())))
+			}
+			n := 0
+			for _, ob := range r.Obls {
+				if oblCounts(ob, o.prop) {
+					allObls = append(allObls, ob)
+					n++
+				}
+			}
+			reachObls = append(reachObls, r.ReachChecks...)
+			fsums = append(fsums, fsum{k, m.String(), len(r.Obls), n})
+			for _, x := range r.Externs {
+				if fc2 := w.db.Funcs[x]; fc2 != nil && fc2.Trusted && !fc2.Extern {
+					trusted[x] = true
+				} else {
+					externs[x] = true
+				}
+			}
+			for _, x := range r.Contracts {
+				relies[x] = true
+			}
+			for _, x := range r.Unmodelled {
+				unmodelled[x] = true
+			}
+			for _, x := range r.Inlined {
+				inlined[x] = true
+			}
+			for _, wn := range r.Warns {
+				if !strings.HasPrefix(wn, "ERROR") {
+					warns = appendUniq(warns, wn)
+				}
+			}
+		}
+	}
+	genS := time.Since(genT0).Seconds()
+	// lemmas of the specification library tagged for this property
+	lemmas := loadLemmas(filepath.Join(o.verif, "spec"), o.prop)
+	for _, l := range lemmas {
+		allObls = append(allObls, l)
+	}
+	if len(errs) > 0 {
+		res.broken = append(res.broken, errs...)
+	}
+	if len(allObls) == 0 {
+		res.broken = append(res.broken, "no obligations generated for "+o.prop)
+	}
+	solveT0 := time.Now()
+	discharge(allObls, cfg)
+	// vacuity guards: returns must be reachable under the assumed contracts
+	rcfg := cfg
+	rcfg.retryS = 0
+	discharge(reachObls, rcfg)
+	solveS := time.Since(solveT0).Seconds()
+
+	byBackend := map[string]int{}
+	byMode := map[string]int{}
+	byStage := map[string]int{}
+	discharged := 0
+	var failed []*Obligation
+	var solverTime float64
+	for _, ob := range allObls {
+		solverTime += ob.TimeS
+		if ob.Status == "unsat" {
+			discharged++
+			byBackend[ob.Solver]++
+			byMode[ob.Mode.String()]++
+			byStage[ob.Stage]++
+		} else {
+			failed = append(failed, ob)
+			if ob.Status == "disagree" || ob.Status == "error" {
+				res.broken = append(res.broken, fmt.Sprintf("solver %s on %s: %v", ob.Status, ob.Name, ob.Answers))
+			}
+		}
+	}
+	// vacuity
+	reachSat, reachDead := 0, []string{}
+	perFuncReach := map[string]int{}
+	perFuncTotal := map[string]int{}
+	for _, r := range reachObls {
+		perFuncTotal[r.Func+"/"+r.Mode.String()]++
+		if r.Status == "sat" {
+			reachSat++
+			perFuncReach[r.Func+"/"+r.Mode.String()]++
+		} else if r.Status == "unsat" {
+			reachDead = append(reachDead, r.Name)
+		}
+	}
+	for k, n := range perFuncTotal {
+		if n > 0 && perFuncReach[k] == 0 {
+			res.broken = append(res.broken, "vacuity guard: no return of "+k+" is reachable under its contract (contradictory requires/invariant?)")
+		}
+	}
+
+	// failures -> known findings / violations
+	sort.Slice(failed, func(i, j int) bool { return failed[i].Name < failed[j].Name })
+	replayDir := filepath.Join(o.verif, "replay", o.prop)
+	seenKnown := map[string]bool{}
+	for _, ob := range failed {
+		if ob.Status == "disagree" || ob.Status == "error" {
+			continue
+		}
+		bn := baseName(ob.Name)
+		matched := false
+		for _, k := range known.Findings {
+			if k.Property == o.prop && (k.Obligation == bn || k.Obligation == ob.Name) {
+				matched = true
+				line := fmt.Sprintf("KNOWN-FINDING: property=%s %s [%s]", o.prop, k.What, k.Obligation)
+				if !seenKnown[line] {
+					seenKnown[line] = true
+					res.known = append(res.known, line)
+				}
+			}
+		}
+		if matched {
+			continue
+		}
+		_ = os.MkdirAll(replayDir, 0o755)
+		path := filepath.Join(replayDir, sanitizeFile(ob.Name)+".json")
+		rp := map[string]interface{}{
+			"property": o.prop, "obligation": ob.Name, "function": ob.Func, "kind": ob.Kind, "label": ob.Label,
+			"position": ob.Pos, "encoding": ob.Mode.String(), "solver_status": ob.Status, "solver_answers": ob.Answers,
+			"solver_output": truncate(ob.Model, 20000), "goal": truncate(ob.Goal, 4000),
+		}
+		replayed, note := tryReplay(w, o, ob, rp)
+		rp["replay"] = note
+		data, _ := json.MarshalIndent(rp, "", " ")
+		_ = os.WriteFile(path, append(data, '\n'), 0o644)
+		line := fmt.Sprintf("VIOLATION property=%s replay=%s", o.prop, path)
+		if !replayed {
+			line += " obligation=" + ob.Name + " no-failing-input-found"
+		} else {
+			line += " obligation=" + ob.Name
+		}
+		res.violations = append(res.violations, line)
+	}
+
+	var samples []map[string]interface{}
+	for i, ob := range allObls {
+		if i%(len(allObls)/6+1) == 0 && len(samples) < 8 {
+			samples = append(samples, map[string]interface{}{"obligation": ob.Name, "encoding": ob.Mode.String(), "status": ob.Status,
+				"solver": ob.Solver, "stage": ob.Stage, "time_s": round3(ob.TimeS), "at": ob.Pos})
+		}
+	}
+	trustedBase := []string{
+		"govc: SSA construction by golang.org/x/tools v0.29.0 and govc's SSA->SMT semantics (DESIGN.md sections 2-3, 8)",
+		"SMT solvers z3 5.1.0 (z3-new), cvc5 1.0.x, z3 4.8.12",
+		"machine model: GOOS=linux GOARCH=amd64, int is 64 bit; in the int encoding +,-,* wrap exactly as in Go (no unchecked mathematical reading)",
+		"slice lengths/capacities and string lengths are at most 2^56; pointer parameters and receivers are non-nil",
+	}
+	var assumptions []string
+	for _, x := range sortedKeys(externs) {
+		assumptions = append(assumptions, "assumed contract of dependency: "+x+" (contracts/extern.spec)")
+	}
+	for _, x := range sortedKeys(trusted) {
+		assumptions = append(assumptions, "trusted (not proved here) contract of repository function: "+x)
+	}
+	for _, x := range sortedKeys(unmodelled) {
+		assumptions = append(assumptions, "unmodelled call, treated as havoc of all memory with unknown result: "+x)
+	}
+	for _, wn := range warns {
+		assumptions = append(assumptions, "abstraction: "+wn)
+	}
+	for _, a := range w.db.Assumes {
+		_ = a
+	}
+	assumptions = append(assumptions, propAssumptions(o.verif, o.prop)...)
+	res.evidence = map[string]interface{}{
+		"property_id": o.prop, "tier": o.tier, "seed": o.seed, "level": levelOf(o.prop),
+		"coverage": map[string]interface{}{
+			"obligations": len(allObls), "discharged": discharged,
+			"checker_cmd":  fmt.Sprintf("cd /verif && ./check %s %s", o.prop, o.tier),
+			"trusted_base": trustedBase,
+			"explanation": "Every obligation is a verification condition generated from the go/ssa form of /repo's current working tree for a function under contract (contracts: /repo/zz_contracts_verif.go), discharged by an SMT solver (unsat of prelude /\\ path /\\ not goal). obligations counts the conditions that belong to this property (safety, loop, call-precondition, frame and ensures clauses of the functions tagged with it, plus specification lemmas); discharged those answered unsat.",
+			"functions_under_contract": fsums,
+			"by_backend":               byBackend, "by_encoding": byMode, "by_stage": byStage,
+			"solver_time_s": round3(solverTime), "generation_time_s": round3(genS), "solve_wall_s": round3(solveS),
+			"vacuity_guards": map[string]interface{}{"return_reachability_queries": len(reachObls), "reachable": reachSat, "dead_returns": reachDead},
+			"relies_on_contracts_proved_under_their_own_tags": sortedKeys(relies),
+			"inlined_callees": sortedKeys(inlined), "lemmas": len(lemmas),
+			"undischarged": namesOf(failed), "known_findings_reported": res.known,
+			"samples": samples,
+		},
+		"assumptions": assumptions,
+	}
+	return res
+}
+
+func levelOf(prop string) string {
+	if prop == "C11" {
+		return "other"
+	}
+	return "proof"
+}
+
+func namesOf(os []*Obligation) []string {
+	var r []string
+	for _, o := range os {
+		r = append(r, o.Name+" ("+o.Status+")")
+	}
+	return r
+}
+
+func round3(f float64) float64 { return float64(int(f*1000+0.5)) / 1000 }
+
+func firstLine(s string) string {
+	if i := strings.Index(s, "\n"); i >= 0 {
+		return s[:i]
+	}
+	return s
+}
+
+func truncate(s string, n int) string {
+	if len(s) > n {
+		return s[:n] + "...[truncated]"
+	}
+	return s
+}
+
+func sanitizeFile(s string) string {
+	r := strings.NewReplacer("/", "_", " ", "_", "(", "", ")", "", "*", "", "$", "_", ":", "_", "#", "_")
+	s = r.Replace(s)
+	if len(s) > 120 {
+		s = s[:120]
+	}
+	return s
+}
+
+// propAssumptions: per-property statements of what is assumed / not covered,
+// kept in /verif/contracts/assumptions.json so they are reviewed with the contracts.
+func propAssumptions(verif, prop string) []string {
+	data, err := os.ReadFile(filepath.Join(verif, "contracts", "assumptions.json"))
+	if err != nil {
+		return nil
+	}
+	var m map[string][]string
+	if json.Unmarshal(data, &m) != nil {
+		return nil
+	}
+	return append(append([]string{}, m["all"]...), m[prop]...)
+}
+
+// loadLemmas reads spec/*.check.smt2: each `(push) ... (check-sat) (pop)`
+// block preceded by a comment `; lemma <name> [tags] expect unsat|sat`.
+func loadLemmas(dir, prop string) []*Obligation {
+	var out []*Obligation
+	ents, _ := os.ReadDir(dir)
+	for _, en := range ents {
+		if !strings.HasSuffix(en.Name(), ".check.smt2") {
+			continue
+		}
+		data, err := os.ReadFile(filepath.Join(dir, en.Name()))
+		if err != nil {
+			continue
+		}
+		mode := ModeBV
+		if strings.Contains(en.Name(), ".int.") {
+			mode = ModeInt
+		}
+		text := string(data)
+		// header = everything before the first "; lemma"
+		idx := strings.Index(text, "; lemma ")
+		if idx < 0 {
+			continue
+		}
+		header := text[:idx]
+		for _, blk := range strings.Split(text[idx:], "; lemma ")[1:] {
+			nl := strings.Index(blk, "\n")
+			head := strings.Fields(blk[:nl])
+			body := blk[nl+1:]
+			name := head[0]
+			tagged := false
+			expect := "unsat"
+			for i, h := range head[1:] {
+				if h == prop {
+					tagged = true
+				}
+				if h == "expect" && i+2 < len(head) {
+					expect = head[i+2]
+				}
+			}
+			if !tagged {
+				continue
+			}
+			o := &Obligation{Name: "lemma:" + strings.TrimSuffix(en.Name(), ".check.smt2") + "#" + name, Func: "spec", Kind: "lemma", Mode: mode}
+			o.lemmaText = header + body
+			o.lemmaExpect = expect
+			out = append(out, o)
+		}
+	}
+	return out
+}
+
+// tryReplay attempts to turn the solver's model into a failing run of the real
+// code. Drivers exist for functions whose arguments can be read off the model.
+func tryReplay(w *World, o checkOpts, ob *Obligation, rp map[string]interface{}) (bool, string) {
+	if ob.Status != "sat" {
+		return false, "solver gave no model (" + ob.Status + "): the obligation was discharged on the unchanged tree and no longer is"
+	}
+	drv := replayDrivers[ob.Func]
+	if drv == nil {
+		return false, "no replay driver for " + ob.Func + "; the model is attached as solver_output"
+	}
+	ok, note := drv(w, o, ob, rp)
+	return ok, note
+}
+
+type replayDriver func(w *World, o checkOpts, ob *Obligation, rp map[string]interface{}) (bool, string)
+
+var replayDrivers = map[string]replayDriver{}
+
+func runGoTestOverlay(repo, testSrc, runPattern string) (bool, string) {
+	dir, err := os.MkdirTemp("", "govc-replay-")
+	if err != nil {
+		return false, err.Error()
+	}
+	defer os.RemoveAll(dir)
+	tf := filepath.Join(dir, "zz_replay_test.go")
+	_ = os.WriteFile(tf, []byte(testSrc), 0o644)
+	ov := map[string]interface{}{"Replace": map[string]string{filepath.Join(repo, "zz_replay_test.go"): tf}}
+	data, _ := json.Marshal(ov)
+	ovf := filepath.Join(dir, "overlay.json")
+	_ = os.WriteFile(ovf, data, 0o644)
+	cmd := exec.Command("go", "test", "-overlay", ovf, "-vet=off", "-count=1", "-timeout", "60s", "-run", runPattern, ".")
+	cmd.Dir = repo
+	cmd.Env = append(os.Environ(), "GOFLAGS=-mod=mod", "GOPROXY=off", "GOSUMDB=off", "GOTOOLCHAIN=local")
+	out, err := cmd.CombinedOutput()
+	return err != nil && strings.Contains(string(out), "REPLAY-FAIL"), truncate(string(out), 4000)
+}
